@@ -21,6 +21,11 @@
 // of the row above), and for automatic hyphenation (hyphens:auto, lang=en: dictionary words with
 // punctuation glued to them, a soft hyphen, a word inside a span). A line that ends with the
 // hyphenate-character continues its word on the next line of the flow.
+//
+// Fourth generation (same lattice): a forced break on the first inner element of a block (inner <p>,
+// first <li>, the row of the first cell) combined with every entry of the block menu, among them the four
+// atomic inline-level displays (inline-block, inline-table, inline-flex, inline-grid): a forced break
+// inside a box that is not in the normal flow of the page (groups L1-/L2-inner-breaks).
 package c02
 
 import (
@@ -205,6 +210,12 @@ func (c *check) plan(tier string) {
 	kindsGen3 := [][]blockSpec{{{kColspan, 5}}, {{kColspan, 9}}, {{kRowspan, 5}}, {{kRowspan, 9}}, {{kHyph, 3}}, {{kHyph, 5}}, {{kP, 3}, {kColspan, 5}}}
 	kindsGen3T := append(append([][]blockSpec(nil), kindsGen3...), []blockSpec{{kHyph, 9}}, []blockSpec{{kP, 3}, {kRowspan, 5}}, []blockSpec{{kP, 1}, {kHyph, 5}}, []blockSpec{{kColspan, 3}}, []blockSpec{{kRowspan, 3}}, []blockSpec{{kHyph, 1}},
 		[]blockSpec{{kRowspan, 9}, {kP, 3}}, []blockSpec{{kColspan, 9}, {kP, 3}})
+	// fourth generation: a forced break on the first inner element (inner <p>, first <li>, first row) of a block
+	// that is an atomic inline-level box of every display, a float, a positioned box, a multi-column box...
+	innerBreakSk := [][]blockSpec{{{kDivP, 5}}, {{kUL, 5}}, {{kColspan, 5}}, {{kRowspan, 5}}, {{kTable, 9}}, {{kSpans, 5}}, {{kP, 3}, {kDivP, 3}}}
+	innerBreakSkT := append(append([][]blockSpec(nil), innerBreakSk...), []blockSpec{{kDivP, 9}}, []blockSpec{{kUL, 9}}, []blockSpec{{kColspan, 9}}, []blockSpec{{kRowspan, 9}},
+		[]blockSpec{{kTable, 5}}, []blockSpec{{kP, 3}, {kColspan, 5}}, []blockSpec{{kUL, 5}, {kP, 3}}, []blockSpec{{kGlue, 5}})
+	menuInner := append(append(append([]int(nil), menuGen1Quick...), menuNamed("in-float", "in-absolute", "in-relative", "in-opacity", "in-inline-block", "in-block")...), menuGen4...)
 	if tier == "quick" {
 		c.groups = []*group{
 			{Name: "L0-all", Skeletons: all, Widths: widthsAll, Level: 0, Menu: menuGen1Quick, Sweep: full},
@@ -219,6 +230,8 @@ func (c *check) plan(tier string) {
 			{Name: "L2-secondary", Skeletons: secondary, Widths: []int{50}, Level: 2, Menu: menuGen1Quick, Sweep: full},
 			{Name: "L2-pseudo-inner", Skeletons: primaryExt, Widths: []int{50}, Level: 2, Menu: menuQ, Need: menuGen2, Sweep: lite},
 			{Name: "L2-four-blocks", Skeletons: sandwich, Widths: []int{50}, Level: 2, Menu: menuSandwich, Sweep: lite},
+			{Name: "L1-inner-breaks", Skeletons: innerBreakSk, Widths: []int{50, 120}, Level: 1, Menu: menuInnerBreaks, Sweep: full},
+			{Name: "L2-inner-breaks", Skeletons: innerBreakSk, Widths: []int{50, 120}, Level: 2, Menu: menuInner, Need: menuInnerBreaks, Sweep: lite},
 		}
 	} else {
 		one, _, three := skeletonLists(0, nKinds)
@@ -239,6 +252,8 @@ func (c *check) plan(tier string) {
 			{Name: "L2-pseudo-inner", Skeletons: l2Ext, Widths: []int{50, 80}, Level: 2, Menu: menuAll, Need: menuGen2, Sweep: lite},
 			{Name: "L2-four-blocks", Skeletons: sandwich, Widths: widthsAll, Level: 2, Menu: menuSandwich, Sweep: full},
 			{Name: "L3-primary", Skeletons: primary, Widths: []int{50}, Level: 3, Menu: menuGen1Quick, Sweep: full},
+			{Name: "L1-inner-breaks", Skeletons: innerBreakSkT, Widths: widthsExt, Level: 1, Menu: menuInnerBreaks, Sweep: full},
+			{Name: "L2-inner-breaks", Skeletons: innerBreakSkT, Widths: widthsAll, Level: 2, Menu: menuInner, Need: menuInnerBreaks, Sweep: full},
 		}
 	}
 	var n int64
